@@ -19,6 +19,11 @@ CLAIMED = {
             "Seeded search over call histories x virtual-clock moves (incl. backward jumps and limit boundaries) against the real Telomere; self-deadlock is an exact verdict from the simulated lock, non-return a deterministic line-budget verdict. Sampling, not proof.",
             "Trusts CPython, sys.settrace, the oracle in props/c09.py; reset() modelled as re-initialisation; the exact-boundary instant of time limits is not asserted.",
             "DESIGN 4 C09"),
+    "C04": ("exploration",
+            "deterministic simulation, degenerate sequential case: seeded operation histories on two real ATP_Stores checked step by step against an accounting (net-worth) oracle",
+            "Seeded search over operation histories and a configuration grid incl. zero capacities, with boundary-relative amounts; every step is judged by a clause-for-clause accounting oracle (no overdraft, exact charge, free failure, capacity, transfers conserve, bounded spend, no raise). No schedule or clock is involved; this is the sequential specification C05 relies on. Sampling, not proof.",
+            "Trusts the oracle in props/c04.py; non-negative integer arguments; the over-capacity balance a failed spend's NADH top-up leaves behind is tolerated because no clause forbids it.",
+            "DESIGN 4 C04"),
     "C05": ("exploration",
             "deterministic simulation: real threads under a seeded line-granularity scheduler (baton passing + sys.settrace), sim locks/timers, Wing-Gong linearizability check against the real store run sequentially",
             "Seeded search over thread interleavings at source-line granularity of 2-3 tasks x 1-3 store operations (plus the store's own regeneration thread on a virtual timer); each explored schedule must be deadlock-free (exact verdict), keep balances non-negative and be linearizable. Sampling of schedules, not enumeration.",
